@@ -14,6 +14,7 @@ func init() {
 			if m.decideBool(m.tf.Cmp("bvsle", n, m.tf.BV(0, w)), "rand."+name+" n<=0") {
 				m.throwRuntime("invalid argument to rand." + name)
 			}
+			m.envPicks++ // the native generator cannot be forced to this draw
 			t := m.fresh("rand."+name, "int", w, true)
 			m.assume(m.tf.And(m.tf.Cmp("bvsle", m.tf.BV(0, w), t), m.tf.Cmp("bvslt", t, n)))
 			return t
@@ -24,6 +25,7 @@ func init() {
 	regIfAbsent("math/rand.Int31n", ranged("Int31n", 32))
 	nonneg := func(name string, w int) intrinsic {
 		return func(m *Machine, fr *frame, a []Value) Value {
+			m.envPicks++
 			t := m.fresh("rand."+name, "int", w, true)
 			m.assume(m.tf.Cmp("bvsle", m.tf.BV(0, w), t))
 			return t
@@ -33,9 +35,11 @@ func init() {
 	regIfAbsent("math/rand.Int63", nonneg("Int63", 64))
 	regIfAbsent("math/rand.Int31", nonneg("Int31", 32))
 	regIfAbsent("math/rand.Uint32", func(m *Machine, fr *frame, a []Value) Value {
+		m.envPicks++
 		return m.fresh("rand.Uint32", "uint32", 32, false)
 	})
 	regIfAbsent("math/rand.Uint64", func(m *Machine, fr *frame, a []Value) Value {
+		m.envPicks++
 		return m.fresh("rand.Uint64", "uint64", 64, false)
 	})
 	regIfAbsent("math/rand.Seed", func(m *Machine, fr *frame, a []Value) Value { return nil })
